@@ -124,9 +124,19 @@ def map_merge(self, base_maps, base_sibs, run_maps, run_sibs):
 
 
 @spec
-def all_conflict_free(maps):
+def maps_shape(maps):
     return forall(lambda k: is_obj(item(maps, k)) and is_list(item(maps, k).conflict_keys)
-                  and item(maps, k).conflict_keys is not maps and nitems(item(maps, k).conflict_keys) == 0, 0, nitems(maps))
+                  and item(maps, k).conflict_keys is not maps, 0, nitems(maps))
+
+
+@spec
+def maps_no_conflict(maps):
+    return forall(lambda k: nitems(item(maps, k).conflict_keys) == 0, 0, nitems(maps))
+
+
+@spec
+def all_conflict_free(maps):
+    return maps_shape(maps) and maps_no_conflict(maps)
 
 
 @target("pedal.cait.stretchy_tree_matching:StretchyTreeMatcher.binflex_helper")
@@ -143,10 +153,12 @@ def binflex_helper(self, case_left, case_right, new_mappings, base_mappings, use
              ensures=[exact_instance(result, AstMap), fresh(result), is_list(result.conflict_keys), fresh(result.conflict_keys)])
     modifies(items(new_mappings))
     raises_nothing()
-    invariant(1, "conflict_free", is_list(new_mappings) and all_conflict_free(new_mappings)
+    invariant(1, "shape", is_list(new_mappings) and maps_shape(new_mappings)
               and nitems(new_mappings) >= entry(nitems(new_mappings)), modifies=[items(new_mappings)])
-    invariant(2, "conflict_free", is_list(new_mappings) and all_conflict_free(new_mappings)
+    invariant(1, "conflict_free", maps_no_conflict(new_mappings))
+    invariant(2, "shape", is_list(new_mappings) and maps_shape(new_mappings)
               and nitems(new_mappings) >= entry(nitems(new_mappings)), modifies=[items(new_mappings)])
+    invariant(2, "conflict_free", maps_no_conflict(new_mappings))
     ensures("only_conflict_free_maps_added", all_conflict_free(new_mappings))
     ensures("earlier_maps_kept", nitems(new_mappings) >= old(nitems(new_mappings)))
     ensures("one_side_unmatched_adds_nothing", implies(nitems(case_left) == 0 or nitems(case_right) == 0,
